@@ -74,6 +74,27 @@ Lemma const_numbers_first : forall x y, ckind_of_prim x = KNum -> ckind_of_prim 
                                         prim_cmp x y = Lt /\ prim_cmp y x = Gt.
 Proof. intros x y Hx Hy. destruct x; try discriminate; destruct y; try (contradiction Hy; reflexivity); split; reflexivity. Qed.
 
+(* ---- hex_cmp / list_cmp ---- *)
+Inductive hex_kind := HexBytes | HexNumber.
+Definition be_value (l : list N) : N := fold_left (fun a b => (a * 256 + b)%N) l 0%N.
+Definition hex_cmp_g (k : hex_kind) (x y : ustring) : comparison :=
+  match k with
+  | HexBytes => ustr_compare (hex_decode x) (hex_decode y)
+  | HexNumber => N.compare (be_value (hex_decode x)) (be_value (hex_decode y))
+  end.
+Inductive list_kind := ListLex | ListZip.
+Definition cmp_zip {A} (cmp : A -> A -> comparison) : list A -> list A -> comparison :=
+  fix go l1 l2 :=
+    match l1, l2 with
+    | x :: r1, y :: r2 => match cmp x y with Eq => go r1 r2 | c => c end
+    | _, _ => Eq
+    end.
+Definition list_cmp_g (k : list_kind) (l1 l2 : list prim) : comparison :=
+  match k with
+  | ListLex => cmp_lex prim_cmp (isort prim_cmp l1) (isort prim_cmp l2)
+  | ListZip => cmp_zip prim_cmp (isort prim_cmp l1) (isort prim_cmp l2)
+  end.
+
 (* ---- simple_comparison_expression_cmp: which fields, in which order ---- *)
 Inductive astep := ALhs | AOp | ANegFalseFirst | ANegTrueFirst | ARhs.
 Definition astep_cmp (s : astep) (x y : atom) : comparison :=
